@@ -34,7 +34,11 @@ ENTRY = dict(
          "size n in [W-framing-2, W+1] for W = 256 and 512, so that each of its nested length prefixes (n, n+k1, n+k2, ...) is seen on "
          "both sides of its own byte carry while its neighbours are not (about 300 builds, all through the Go walker, every sixth of "
          "the first window through the model), and per predefined fingerprint one Config.ServerName of 246..253 bytes (rotating), the "
-         "window in which the three server_name prefixes cross 256 within the DNS limit. Every produced "
+         "window in which the three server_name prefixes cross 256 within the DNS limit; the whole LIMITS / CARRY table runs twice - "
+         "under a Config that leaves them empty and under a Config whose ServerName, NextProtos, CurvePreferences and Renegotiation "
+         "(every field ApplyConfig / writeToUConn copies from the spec's extensions) already hold the caller's own well-formed values, "
+         "so that a check made on the Config instead of on what is marshalled is exposed; a third of the generated custom specs get "
+         "such a prefilled Config too. Every produced "
          "Hello.Raw goes to the Coq oracle valid_chb (OracleCase) and to the independent Go walker; every custom spec also to the "
          "model of MarshalClientHelloNoECH (header fields + each extension object as a Coq term), which must reproduce Hello.Raw "
          "byte for byte or return an error when the code does. Distinct by (fingerprint, shape) resp. spec index; non-trivial "
